@@ -228,6 +228,39 @@ theorem redelivery_invisible_full_false : ¬ redelivery_invisible_full := by
 
 example : handled hC hE2 = true ∧ known hC hE2 = false ∧ laterHandled hE2.n hC [.deliver hE1 0, .deliver hE2 0] = false := by decide
 
+/-- the statement WITH `handled` and `known` at the place of insertion but without the condition on later deliveries of the
+    same event number -/
+def redelivery_invisible_anysuffix : Prop :=
+  ∀ (c : Cl) (pre suf : List COp) (e : Ev) (nx : Nat), IInv c → handled (hist c pre).1 e = true → known (hist c pre).1 e = true →
+    proj (hist c (pre ++ [.deliver e nx] ++ suf)).1 = proj (hist c (pre ++ suf)).1
+
+/-- refuted: `laterHandled` is necessary.  The client stages a commit of its own (record ProcessedCommit, pending); a competitor
+    that ROTATES the nostr group id is applied first, so the own commit lost its epoch.  Its echo — still tagged with the old id —
+    is offered now: not found (`GroupNotFound`), nothing visible changes, the event is `handled` (not routed) and `known`; but the
+    record is rewritten as Failed.  Then a sibling of the rotation commit re-published under the NEW id (the mechanism of the open
+    finding retagged-commit-rollback) makes the client roll back — which restores the old id AND the pending commit — and is
+    refused.  Now the echo of the own commit is a FIRST delivery: the run without the early offer merges the pending commit, the
+    run with it is blocked by the Failed record for ever.  (An own commit that never took effect is not an "already handled
+    event" in the property's sense; the hypothesis `laterHandled` is what excludes it.) -/
+def nOwn : Ev := { n := 6, ts := 33, idnum := 6, cipher := 6, sender := 2, path := [], kind := .commit .selfUpdate [] }
+def nRot : Ev := { n := 10, ts := 20, idnum := 10, cipher := 10, sender := 0, path := [], kind := .commit (.setData { initData [0, 1] 1 with nid := 8 }) [] }
+def nSibRetag : Ev := { n := 11, ts := 10, idnum := 11, cipher := 11, sender := 1, path := [], kind := .commit .selfUpdate [], tag := 8 }
+def nPre : List COp := [.stage 6 33 6 .selfUpdate false, .deliver nRot 0]
+def nSuf : List COp := [.deliver nSibRetag 0, .deliver nOwn 0]
+
+theorem witness_later_delivery_not_handled :
+    (hist hC nPre).2 = [.ev nOwn, .commit] ∧ handled (hist hC nPre).1 nOwn = true ∧ known (hist hC nPre).1 nOwn = true ∧
+    (deliver (hist hC nPre).1 nOwn 0).2 = .err eGroupNotFound ∧ laterHandled nOwn.n (hist hC nPre).1 nSuf = false ∧
+    (hist (hist hC nPre).1 nSuf).2 = [.err eGroupNotFound, .commit] ∧ (hist hC (nPre ++ nSuf)).1.g.path = [6] ∧
+    (hist (hist hC (nPre ++ [.deliver nOwn 0])).1 nSuf).2 = [.err eGroupNotFound, .unprocessable] ∧
+    (hist hC (nPre ++ [.deliver nOwn 0] ++ nSuf)).1.g.path = [] ∧ (hist hC (nPre ++ [.deliver nOwn 0] ++ nSuf)).1.g.pending = some nOwn := by
+  decide
+
+theorem redelivery_invisible_anysuffix_false : ¬ redelivery_invisible_anysuffix := by
+  intro h
+  have := h hC nPre nSuf nOwn 0 (iinv_init ..) (by decide) (by decide)
+  revert this; decide
+
 /-- the open finding rewrapped-commit-rollback is NOT a re-delivery in the sense of the theorem: the same ciphertext under
     another wrapper is another event number; the copy with the earlier timestamp is not `handled` (it wins the comparison),
     the copy with the later one is `handled` but not `known` (a refused first offer: C06's theorem) -/
